@@ -150,22 +150,22 @@ theorem c11_reachable_wf (c c' : Cat V) (h : c.WF) (r : Reach c c') : c'.WF := b
   | refl => exact h
   | step b d _ hs ih =>
     cases hs with
-    | add e v he ha => exact (add_wf b ih e v he d ha).1
-    | remove v hr => exact (remove_wf b ih v d hr).1
-    | addUnmatched segs dd ha => exact (addUnmatched_wf b ih segs dd d ha).1
-    | align segs ha => exact align_wf b ih segs d ha
-    | removeRepeats hne hr =>
+    | add _ e v he ha => exact (add_wf b ih e v he d ha).1
+    | remove _ v hr => exact (remove_wf b ih v d hr).1
+    | addUnmatched _ segs dd ha => exact (addUnmatched_wf b ih segs dd d ha).1
+    | align _ segs ha => exact align_wf b ih segs d ha
+    | removeRepeats _ hne hr =>
       obtain ⟨x, hx, hw, _⟩ := removeRepeats_spec b ih hne
       rw [hx] at hr
       simp only [Except.ok.injEq] at hr
       subst hr; exact hw
-    | partitionPart parts s0 ss hp hs hN hpart hmem =>
+    | partitionPart _ parts s0 ss hp hs hN hpart hmem =>
       obtain ⟨ps, hps, hall, _⟩ := partition_spec b hp s0 ss hs hN
       rw [hps] at hpart
       simp only [Except.ok.injEq] at hpart
       subst hpart
       exact (hall d hmem).1.1
-    | concat others rep hp hothers hc =>
+    | concat _ others rep hp hothers hc =>
       obtain ⟨x, hx, hxp, _⟩ := concat_spec (b :: others) (by
         intro p hp'
         rcases List.mem_cons.mp hp' with rfl | hp'
